@@ -4,7 +4,9 @@ use crate::report::Report;
 use crate::{RunCfg, Tier};
 
 pub mod enc_common;
+pub mod hist;
 pub mod c01;
+pub mod c02;
 pub mod c03;
 pub mod c04;
 pub mod c05;
@@ -14,6 +16,10 @@ pub mod c08;
 pub mod c09;
 pub mod c10;
 pub mod c11;
+pub mod c12;
+pub mod c13;
+pub mod c14;
+pub mod c15;
 pub mod c16;
 pub mod c17;
 pub mod c18;
@@ -58,5 +64,5 @@ pub fn floor(rep: &mut Report, cfg: &RunCfg, floor: u64) {
 }
 
 pub fn registry() -> Vec<Mon> {
-    vec![c01::mon(), c03::mon(), c04::mon(), c05::mon(), c06::mon(), c07::mon(), c08::mon(), c09::mon(), c10::mon(), c11::mon(), c16::mon(), c17::mon(), c18::mon(), c19::mon()]
+    vec![c01::mon(), c02::mon(), c03::mon(), c04::mon(), c05::mon(), c06::mon(), c07::mon(), c08::mon(), c09::mon(), c10::mon(), c11::mon(), c12::mon(), c13::mon(), c14::mon(), c15::mon(), c16::mon(), c17::mon(), c18::mon(), c19::mon()]
 }
